@@ -29,12 +29,31 @@ pub enum ROp {
     IterNth(u8),
     /// create an iterator and call `Iterator::last()`: everything is consumed, the last item returned
     IterLast,
+    /// complete reader only: a pair iteration typed with a caller's row type that cannot represent
+    /// the rows of this table (an honest conversion error), one item taken: the pair is consumed
+    IterRowErr,
+    /// take one item and leak the iterator (`std::mem::forget`): the reader's state is what it is
+    /// when the iterator goes away, however it goes away
+    IterForget,
     Seek(u8),
     Count,
     /// read_nth_shape_as::<a user-defined ReadableShape>(i) whose `read_from` panics after it has
     /// consumed the type code and 8 more bytes; the caller catches the panic and goes on using
     /// the reader (a random access that neither succeeds nor returns)
     NthPanic(u8),
+}
+
+/// A caller's own row type that reads the integer field of the table as a text field.
+pub struct BadRow;
+impl dbase::ReadableRecord for BadRow {
+    fn read_using<S, M>(fi: &mut dbase::FieldIterator<S, M>) -> Result<Self, dbase::FieldIOError>
+    where
+        S: std::io::Read + std::io::Seek,
+        M: std::io::Read + std::io::Seek,
+    {
+        let _ = fi.read_next_field_as::<String>()?;
+        Ok(BadRow)
+    }
 }
 
 /// A caller's own readable shape (the trait is public) that gives up by panicking.
@@ -167,7 +186,7 @@ pub fn file_for(ty: i32, n: usize, varied: bool) -> WProg {
     WProg { calls: (0..n).map(WCall::W).collect(), shapes, others: vec![], ending: Ending::Drop, with_shx: true, stack: StackCfg::Direct }
 }
 
-fn make_dbf(n: usize) -> Vec<u8> {
+pub fn make_dbf(n: usize) -> Vec<u8> {
     let mut cur = Cursor::new(Vec::<u8>::new());
     {
         let mut w = dbase::TableWriterBuilder::new().add_integer_field(dbase::FieldName::try_from("idx").unwrap()).build_with_dest(&mut cur);
@@ -291,6 +310,32 @@ fn apply(r: &mut AnyReader, op: ROp, n: usize) -> Result<Obs, PanicInfo> {
                 Some(Err(e)) => Obs::Items(vec![Err(classify(&e))], false),
             }
         }
+        (AnyReader::Shp(_), ROp::IterRowErr) => Obs::Unit(Ok(())),
+        (AnyReader::Full(r), ROp::IterRowErr) => match r.iter_shapes_and_records_as::<shapefile::Shape, BadRow>().next() {
+            None => Obs::Items(vec![], true),
+            Some(Ok((s, _))) => Obs::Items(vec![Ok((capture(&s), None))], false),
+            Some(Err(e)) => Obs::Items(vec![Err(classify(&e))], false),
+        },
+        (AnyReader::Shp(r), ROp::IterForget) => {
+            let mut it = r.iter_shapes();
+            let x = it.next();
+            std::mem::forget(it);
+            match x {
+                None => Obs::Items(vec![], true),
+                Some(Ok(s)) => Obs::Items(vec![Ok((capture(&s), None))], false),
+                Some(Err(e)) => Obs::Items(vec![Err(classify(&e))], false),
+            }
+        }
+        (AnyReader::Full(r), ROp::IterForget) => {
+            let mut it = r.iter_shapes_and_records();
+            let x = it.next();
+            std::mem::forget(it);
+            match x {
+                None => Obs::Items(vec![], true),
+                Some(Ok((s, rec))) => Obs::Items(vec![Ok((capture(&s), row_idx(&rec)))], false),
+                Some(Err(e)) => Obs::Items(vec![Err(classify(&e))], false),
+            }
+        }
         (AnyReader::Shp(r), ROp::IterLast) => match r.iter_shapes().last() {
             None => Obs::Items(vec![], true),
             Some(Ok(s)) => Obs::Items(vec![Ok((capture(&s), None))], true),
@@ -345,6 +390,8 @@ fn op_name(op: ROp) -> String {
         ROp::IterWrong => "iter-as-other-type-1".into(),
         ROp::IterNth(j) => format!("iter-nth({})", j),
         ROp::IterLast => "iter-last".into(),
+        ROp::IterRowErr => "iter-with-unfit-row-type-1".into(),
+        ROp::IterForget => "iter-1-then-forget".into(),
         ROp::Seek(k) => format!("seek({})", k),
         ROp::Count => "count".into(),
         ROp::NthPanic(i) => format!("nth-as-panicking-user-type({})", i),
@@ -364,6 +411,8 @@ fn history_site(ops: &[ROp], upto: usize) -> String {
         ROp::IterWrong => "iterwrong",
         ROp::IterNth(_) => "iternth",
         ROp::IterLast => "iterlast",
+        ROp::IterRowErr => "iterrowerr",
+        ROp::IterForget => "iterforget",
         ROp::Seek(_) => "seek",
         ROp::Count => "count",
         ROp::NthPanic(_) => "nthpanic",
@@ -505,8 +554,48 @@ pub fn run_history(scn: &HrScn, f: &ValidFile, dbf: &[u8], ctx: &mut Ctx) {
                     unsynced = false;
                 }
             }
-            (ROp::Iter(_), Obs::Items(..)) | (ROp::IterNth(_), Obs::Items(..)) | (ROp::IterLast, Obs::Items(..)) if unsynced => {
+            (ROp::IterRowErr, Obs::Unit(_)) => {}
+            (ROp::Iter(_), Obs::Items(..)) | (ROp::IterNth(_), Obs::Items(..)) | (ROp::IterLast, Obs::Items(..)) | (ROp::IterRowErr, Obs::Items(..)) | (ROp::IterForget, Obs::Items(..)) if unsynced => {
                 ctx.stats.reach("iteration-not-judged-after-failed-typed-iteration");
+            }
+            (ROp::IterRowErr, Obs::Items(items, ended)) => {
+                // the pair at the current position is consumed, its row being reported as an error
+                let mut next: BTreeSet<usize> = BTreeSet::new();
+                for &p in cand.iter() {
+                    if p < n {
+                        if matches!(items.first(), Some(Err(_))) && !ended {
+                            next.insert(p + 1);
+                            next.insert(0);
+                        }
+                    } else if items.is_empty() && ended {
+                        next.insert(p);
+                    }
+                }
+                if next.is_empty() {
+                    ctx.fail("C15", "iteration-sequence", site, format!("history {} ({:?}, {} records): call {} (pair iteration with a row type that does not fit) returned {:?}{}; allowed start positions were {:?}", hist, scn.kind, n, oi, items.iter().map(|i| match i { Ok((g, _)) => g.short(), Err(e) => format!("Err({:?})", e) }).collect::<Vec<_>>(), if ended { " (the end)" } else { "" }, cand));
+                    return;
+                }
+                cand = next;
+            }
+            (ROp::IterForget, Obs::Items(items, ended)) => {
+                // exactly like taking one item
+                let mut next: BTreeSet<usize> = BTreeSet::new();
+                for &p in cand.iter() {
+                    if p < n {
+                        let ok = !ended && matches!(items.first(), Some(Ok((g, row))) if diff_read(&f.expected[p], g, p, &never).is_none() && (!with_rows || *row == Some(p as i64)));
+                        if ok {
+                            next.insert(p + 1);
+                            next.insert(0);
+                        }
+                    } else if items.is_empty() && ended {
+                        next.insert(p);
+                    }
+                }
+                if next.is_empty() {
+                    ctx.fail("C15", "iteration-sequence", site, format!("history {} ({:?}, {} records): call {} (one item, iterator leaked) returned {:?}; allowed start positions were {:?}", hist, scn.kind, n, oi, items.iter().map(|i| match i { Ok((g, r)) => format!("{}#{:?}", g.short(), r), Err(e) => format!("Err({:?})", e) }).collect::<Vec<_>>(), cand));
+                    return;
+                }
+                cand = next;
             }
             (ROp::IterLast, Obs::Items(items, _)) => {
                 // the last record if any was left, nothing otherwise; everything is consumed
@@ -648,12 +737,22 @@ pub fn execute(scn: &HrScn, ctx: &mut Ctx) {
     run_history(scn, &f, &dbf, ctx);
 }
 
-/// The letters that make sense for a configuration: a source that cannot seek is only iterated.
+/// The letters that make sense for a configuration: a source that cannot seek is only iterated; the
+/// row-typed pair iteration exists on the complete reader only.
 pub fn alphabet_for(kind: RKind, n: usize) -> Vec<ROp> {
     if kind == RKind::ShpIndexNoSeek {
-        return vec![ROp::Iter(0), ROp::Iter(1), ROp::Iter(2), ROp::Iter(255), ROp::IterNth(1), ROp::IterLast, ROp::Count];
+        return vec![ROp::Iter(0), ROp::Iter(1), ROp::Iter(2), ROp::Iter(255), ROp::IterNth(1), ROp::IterLast, ROp::IterForget, ROp::Count];
     }
-    alphabet(n)
+    let mut a = alphabet(n);
+    if matches!(kind, RKind::Full | RKind::FullNoIndex) {
+        a.push(ROp::IterRowErr);
+    }
+    a
+}
+
+/// The alphabet of the property itself: iterate j items, random access, seek, count.
+pub fn is_core(op: &ROp) -> bool {
+    matches!(op, ROp::Iter(_) | ROp::Nth(_) | ROp::Seek(_) | ROp::Count)
 }
 
 pub fn alphabet(n: usize) -> Vec<ROp> {
@@ -666,6 +765,7 @@ pub fn alphabet(n: usize) -> Vec<ROp> {
     a.push(ROp::IterWrong);
     a.push(ROp::IterNth(1));
     a.push(ROp::IterLast);
+    a.push(ROp::IterForget);
     for k in 0..=n {
         a.push(ROp::Seek(k as u8));
     }
@@ -703,11 +803,13 @@ const CONFIGS: [(RKind, bool, u8, usize); 22] = [
     (RKind::ShpIndexNoSeek, true, 0, 3),
     (RKind::ShpIndexNoSeek, false, 0, 4),
 ];
-const MAX_ALPHABET: usize = 21;
+const MAX_ALPHABET: usize = 23;
 
 /// Sweep unit: (configuration, first letter). All histories up to `max_len` starting with that
 /// letter (for the 4-record configurations one call less, their alphabet has 19 letters).
-pub fn sweep_unit(unit: u64, max_len: usize, ctx: &mut Ctx, ctl: &mut UnitCtl) {
+/// `max_len`: all histories over the whole alphabet up to that length; `core_len` (>= max_len): beyond
+/// max_len, histories continue with the letters of the property's own alphabet only.
+pub fn sweep_unit(unit: u64, max_len: usize, core_len: usize, ctx: &mut Ctx, ctl: &mut UnitCtl) {
     let cfg = (unit as usize) / MAX_ALPHABET;
     let (kind, varied, layout, n) = CONFIGS[cfg % CONFIGS.len()];
     let alpha = alphabet_for(kind, n);
@@ -716,7 +818,7 @@ pub fn sweep_unit(unit: u64, max_len: usize, ctx: &mut Ctx, ctl: &mut UnitCtl) {
         return;
     }
     let first = alpha[li];
-    let max_len = if n >= 4 { max_len.saturating_sub(1).max(1) } else { max_len };
+    let (max_len, core_len) = if n >= 4 { (max_len.saturating_sub(1).max(1), core_len.saturating_sub(1).max(1)) } else { (max_len, core_len) };
     // two types per configuration: a multi-vertex one (sizes can differ) and points (always equal)
     let ty = if varied { [3, 15, 28][cfg % 3] } else { [1, 11, 5][cfg % 3] };
     let rbuf = [0u32, 16, 0][cfg % 3];
@@ -740,6 +842,12 @@ pub fn sweep_unit(unit: u64, max_len: usize, ctx: &mut Ctx, ctl: &mut UnitCtl) {
         }
         if h.len() < max_len {
             for a in &alpha {
+                let mut g = h.clone();
+                g.push(*a);
+                stack.push(g);
+            }
+        } else if h.len() < core_len && h.iter().all(is_core) {
+            for a in alpha.iter().filter(|a| is_core(a)) {
                 let mut g = h.clone();
                 g.push(*a);
                 stack.push(g);
